@@ -4,6 +4,7 @@ import (
 	"encoding/json"
 	"fmt"
 	"github.com/meshplus/bitxhub-core/governance"
+	"sort"
 	"strings"
 
 	"github.com/bytecodealliance/wasmtime-go"
@@ -229,6 +230,7 @@ func (s *scn) applyRuleOp(st CStep) {
 		s.flush()
 		return
 	}
+	rulesBefore := s.ruleStatuses(c)
 	s.add(s.b.bvm(c.admin, constant.RuleManagerContractAddr, "UpdateMasterRule", pb.String(c.id), pb.String(target), pb.String("reason")), &txMeta{kind: "gov", sender: c.admin, note: fmt.Sprintf("update-master-rule/%s/%s", c.id, map[bool]string{true: "happy", false: "bit"}[target == happyRule]), target: c.id})
 	rs := s.flush()
 	if rs == nil || len(rs.Receipts) == 0 {
@@ -254,6 +256,39 @@ func (s *scn) applyRuleOp(st CStep) {
 	}
 	s.flush()
 	s.res.Count("rule_updates_" + v)
+	// C16, "only along their declared state machines, driven by … its approval or rejection": the rejection of a master-rule
+	// update takes both rules back where they were (the old master available and still master, the proposed one bindable).
+	// The two blocks of this macro carry nothing but the update and the votes on it.
+	if v == "reject" && s.gov != nil && rulesBefore != "" && s.prop == "C16" {
+		if pv, _ := s.gov.proposal(g.ProposalID); pv != nil && pv.Status == "reject" {
+			s.res.Count("probe_master_rule_update_rejected")
+			if after := s.ruleStatuses(c); after != "" && after != rulesBefore {
+				s.vio("C16", "rejected-proposal-moved-object", "rule", "the master-rule update %s of appchain %s was rejected, yet the chain's rules are no longer what they were before it was submitted: %s -> %s", g.ProposalID, c.id, rulesBefore, after)
+			}
+		}
+	}
+}
+
+// ruleStatuses: the rules of an appchain as the rule manager lists them, canonically ("" if the query fails).
+func (s *scn) ruleStatuses(c *mChain) string {
+	rcs := s.reps[0].viewCall(viewTx(s.users[0], constant.RuleManagerContractAddr, "Rules", pb.String(c.id)))
+	if len(rcs) != 1 || rcs[0] == nil || rcs[0].Status != pb.Receipt_SUCCESS {
+		return ""
+	}
+	var rules []struct {
+		Address string `json:"address"`
+		Status  string `json:"status"`
+		Master  bool   `json:"master"`
+	}
+	if json.Unmarshal(rcs[0].Ret, &rules) != nil {
+		return ""
+	}
+	var out []string
+	for _, ru := range rules {
+		out = append(out, fmt.Sprintf("%s=%s/master:%v", strings.ToLower(ru.Address), ru.Status, ru.Master))
+	}
+	sort.Strings(out)
+	return strings.Join(out, " ")
 }
 
 func (s *scn) deployBitRule() *types.Address {
